@@ -79,7 +79,9 @@ Fixpoint expected (pre : path) (par : option path) (t : ftree) : list node :=
 Definition expected_roots (ts : list ftree) : list node := flat_map (expected [] None) ts.
 
 Inductive oclass :=
-| OCSyntax | OCValidation | OCUnknownOp | OCVarError | OCSuccess | OCPartial.
+| OCSyntax | OCValidation | OCUnknownOp | OCVarError
+| OCDirective      (* @skip / @include arguments of the root selection cannot be coerced *)
+| OCSuccess | OCPartial.
 Definition is_exec (c : oclass) : bool :=
   match c with OCSuccess | OCPartial => true | _ => false end.
 Definition reaches_validation (c : oclass) : bool :=
